@@ -1110,7 +1110,9 @@ pub fn check(which: Which, tier: Tier) -> i32 {
         agg.absorb(a);
         capped |= c;
     }
-    let st = selftest(which);
+    // the self-test runs the library too: on a tree that panics there it counts as failed (a verdict, if there is one,
+    // takes precedence over it)
+    let st = catch(|| selftest(which)).unwrap_or((1, 0));
     let prop = match which {
         Which::C01 => "C01",
         Which::C02 => "C02",
